@@ -33,7 +33,7 @@ theorem ber_region_byTag (o : EncOpts) (hi : o.ifNotEmpty = false) :
     whatever `encode` returns, followed by any octets, `decode` against the same type gives back
     the value and exactly those octets. -/
 theorem ber_roundtrip_partial (defMode : Bool) (maxChunk : Nat) (t : Ty) (v : Val) (b tail : Bytes)
-    (hreg : t.reg Generated.berEnc defMode = true) (hwf : t.WF = true) (hty : HasType t v = true)
+    (hreg : t.reg false Generated.berEnc defMode = true) (hwf : t.WF = true) (hty : HasType t v = true)
     (h : encItem Generated.berEnc { defMode := defMode, maxChunk := maxChunk } t v = .ok b) :
     decodeOne Generated.berDecByType t (b ++ tail) = .ok (v, tail) :=
   roundtrip_item Generated.berEnc Generated.berDecByType { defMode := defMode, maxChunk := maxChunk }
@@ -45,7 +45,7 @@ example :
     let t : Ty := .seq (.cons .req (.tagged true .context 0 (.prim (.str 4)))
       (.cons .opt (.prim .boolean) (.cons .req (.setOf (.prim .integer)) .nil)))
     let v : Val := .seq [.str [1, 2], .absent, .seqOf [.int 5, .int (-300)]]
-    t.reg Generated.berEnc false = true ∧ t.WF = true ∧ HasType t v = true ∧
+    t.reg false Generated.berEnc false = true ∧ t.WF = true ∧ HasType t v = true ∧
       (encItem Generated.berEnc { defMode := false, maxChunk := 1 } t v).toOption.isSome = true := by
   decide +kernel
 
